@@ -2293,8 +2293,53 @@ private:
             return false;
         }
 
+        // "Derives the empty string" and the first sets of the nonterminals are least fixed points over all rules.
+        // Evaluating them recursively with memoisation keeps, for nonterminals that refer to each other (A -> B x,
+        // B -> A y), the partial answer seen while the other one was still being evaluated; iterate instead.
+        constexpr void analyze_nterms()
+        {
+            for (bool changed = true; changed; )
+            {
+                changed = false;
+                for (size_t r = 0u; r < rule_count; ++r)
+                {
+                    const rule_info& ri = gi.rule_infos[r];
+                    term_subset first = nterm_first[ri.l_idx];
+                    bool empty = true;
+                    for (size_t i = 0u; i < ri.r_elements && empty; ++i)
+                    {
+                        const symbol& sm = gi.right_sides[ri.r_idx][i];
+                        if (sm.term)
+                        {
+                            first.set(sm.idx);
+                            empty = false;
+                        }
+                        else
+                        {
+                            first.add(nterm_first[sm.idx]);
+                            empty = nterm_empty.test(sm.idx);
+                        }
+                    }
+                    if (empty && !nterm_empty.test(ri.l_idx))
+                    {
+                        nterm_empty.set(ri.l_idx);
+                        changed = true;
+                    }
+                    if (!(first == nterm_first[ri.l_idx]))
+                    {
+                        nterm_first[ri.l_idx] = first;
+                        changed = true;
+                    }
+                }
+            }
+            nterm_empty_analyzed.set();
+            nterm_first_analyzed.set();
+        }
+
         constexpr size16_t analyze_states()
         {
+            analyze_nterms();
+
             situation_info root_situation_info{ root_rule_idx, 0, eof_idx };
             size32_t root_sit_idx = make_situation_idx(root_situation_info);
             state_count = 1;
